@@ -5,7 +5,7 @@
 SNAP=/tmp/vsnap; RS=/tmp/rsnap
 mkdir -p $SNAP && rsync -a --delete --exclude work --exclude harness/target --exclude .git --exclude replays /verif/ $SNAP/
 rm -rf $RS && git -C /repo worktree prune && git -C /repo worktree add -q --detach $RS HEAD && cp /repo/Cargo.lock $RS/
-sed -i "s#\"/repo\"#\"$RS\"#" $SNAP/lib/vlib.py $SNAP/harness/Cargo.toml $SNAP/harness/cfgprobe/Cargo.toml
+sed -i "s#\"/repo\"#\"$RS\"#" $SNAP/lib/vlib.py $SNAP/harness/Cargo.toml $SNAP/harness/cfgprobe/Cargo.toml $SNAP/harness/nostdprobe/Cargo.toml
 sed -i "s#/repo/#$RS/#g" $SNAP/bin/setup
 (cd $SNAP && bin/setup > /tmp/vsnap_setup.log 2>&1)
 for x in "$@"; do set -- $x; VSNAP=$SNAP RSNAP=$RS python3 /verif/tools/seedrun.py $1 $2; done
